@@ -141,7 +141,13 @@ func MaybeWorker() {
 			os.Exit(3)
 		}
 		in := bufio.NewReaderSize(os.Stdin, 1<<20)
-		out := bufio.NewWriter(os.Stdout)
+		// the protocol owns the original stdout; anything the evaluated code
+		// prints to the process stdout/stderr goes to /dev/null
+		proto := os.Stdout
+		if devnull, err := os.OpenFile(os.DevNull, os.O_WRONLY, 0); err == nil {
+			os.Stdout = devnull
+		}
+		out := bufio.NewWriter(proto)
 		for {
 			line, err := in.ReadBytes('\n')
 			if len(line) > 0 {
